@@ -91,7 +91,7 @@ func VerifC14_Attrs() {
 	}
 	bkind := 0
 	if uses(15, 17) {
-		bkind = zzChoice("bkind", 4)
+		bkind = zzChoice("bkind", 7)
 	}
 	var bv any
 	bvStr, bvTruthy := "", false
@@ -104,6 +104,12 @@ func VerifC14_Attrs() {
 		bv, bvStr, bvTruthy = true, "true", true
 	case 3:
 		bv, bvStr, bvTruthy = "word", "word", true
+	case 4: // the string form of a float32 is its shortest float32 representation
+		bv, bvStr, bvTruthy = float32(0.1), "0.1", true
+	case 5:
+		bv, bvStr, bvTruthy = 1e21, "1e+21", true
+	case 6:
+		bv, bvStr, bvTruthy = int8(-3), "-3", true
 	}
 	data := map[string]any{"sv": sv, "iv": 7, "fv": false, "zv": 0, "tv": tv, "cv": "dyn", "bv": bv, "ok": true, "no": false, "items": []int{1}, "tx": "TEXT", "hx": "<u>H</u>"}
 
